@@ -6,6 +6,7 @@
 #                                            tree=pinned: the MODEL follows the pinned tree - replay of refutation witnesses)
 #     ops (args joined by "."; streams and session ids are small numbers):
 #       rp.S.N[.deny|.L<n>] rtmp publish (L<n>: n bytes of URL parameters)      rs.S.N[.deny]  rtmp play       ap.S.N[.deny] rtsp ANNOUNCE
+#       ap2.S.N.M[.deny] / ds2.S.N.M[.deny]  a further ANNOUNCE / DESCRIBE (new session M) on the command connection of session N
 #       ds.S.N[.deny]  rtsp DESCRIBE     pl.N           rtsp PLAY       fs.S.N[.deny] http-flv   ts.S.N[.deny] http-ts
 #       cp.S.N         customize pub     pp.S.N         start_rtp_pub   gone.N        connection ends / DelCustomizePubSession
 #       kick.S.<name>  kick_session      spull.S.R.A[.rtsp] start_relay_pull (retry R, auto-stop A ms; nK = -K; .rtsp: rtsp:// url)
@@ -172,6 +173,12 @@ def rand_history(rng, n_ops, streams):
             deny = ".deny" if rng.random() < 0.1 else ""
             ops.append("%s.%d.%d%s" % (k, s, i, deny))
             live.append((i, k, s))
+        elif r < 0.46 and [x for x in live if x[1] in ("ap", "ds")]:
+            j, _, _ = rng.choice([x for x in live if x[1] in ("ap", "ds")])
+            k = rng.choice(["ap2", "ds2"])
+            i = nid()
+            ops.append("%s.%d.%d.%d%s" % (k, s, j, i, ".deny" if rng.random() < 0.15 else ""))
+            live.append((i, k[:2], s))
         elif r < 0.58 and live:
             i, k, st = rng.choice(live)
             if k == "pp":
@@ -210,7 +217,27 @@ def rand_history(rng, n_ops, streams):
     return ops
 
 
+def gen_rtsp_conn():
+    # several commands on ONE rtsp command connection: a second ANNOUNCE / DESCRIBE (same or another stream name, also
+    # refused by authentication) after an ANNOUNCE, a DESCRIBE, a DESCRIBE + PLAY; then later inputs, the end of the
+    # connection, ticks: whatever the connection carried must have departed
+    firsts = {"ap": ["ap.1.1"], "ds": ["ds.1.1"], "dspl": ["ds.1.1", "pl.1"], "apbusy": ["rp.1.5", "ap.1.1"], "dsin": ["rp.1.5", "ds.1.1", "pl.1"]}
+    seconds = ["ap2.1.1.2", "ap2.2.1.2", "ds2.1.1.2", "ds2.2.1.2", "ap2.1.1.2.deny", "ds2.2.1.2.deny", "ap2.2.1.2,ds2.2.1.3", "ds2.1.1.2,pl.2,ap2.1.2.3"]
+    for fk, first in firsts.items():
+        for sec in seconds:
+            for tail in (["rp.1.7", "rp.2.8", "gone.1", "gone.2", "tick.1", "rp.1.9", "gone.7", "gone.8", "gone.9", "gone.90", "tick.2", "tick.3"],
+                         ["tick.1", "gone.2", "gone.1", "tick.2", "ap.1.7", "ap.2.8", "kick.1.c7", "gone.7", "gone.8", "gone.90", "tick.3", "tick.4"]):
+                yield Case(line(["fs.1.90"] + first + sec.split(",") + tail), cls="rtspconn-" + fk)
+    # the connection was closed by lal (kick, dispose) before the second command
+    yield Case(line(["ap.1.1", "kick.1.c1", "ap2.1.1.2", "ds2.1.1.3", "pl.1", "gone.1", "tick.1"]), cls="rtspconn-kicked")
+    yield Case(line(["ds.1.1", "pl.1", "kick.1.c1", "ds2.1.1.2", "gone.1", "ap2.1.1.3", "tick.1"]), cls="rtspconn-kicked")
+    yield Case(line(["ap.1.1", "ds.1.2", "dispose", "ap2.2.1.3", "ds2.1.2.4", "gone.1", "gone.2"]), cls="rtspconn-kicked")
+    # names: the name of a command that never became a session stays taken; commands on non-rtsp / unknown connections
+    yield Case(line(["ap.1.1", "ap2.1.1.2", "rp.1.2", "ap.1.2", "fs.1.2", "ap2.1.9.3", "rp.1.4", "ap2.1.4.5", "ds2.1.4.6", "gone.4", "tick.1"]), cls="rtspconn-names")
+
+
 def gen_cases(tier, rng):
+    yield from gen_rtsp_conn()
     yield from gen_pairs()
     yield from gen_foreign()
     yield from gen_api_points()
@@ -279,10 +306,19 @@ def oracle(c, out):
     must_finish = set()
     prev = {}
     last_media = {}  # name -> (result, subscriber set at that time, dirty)
+    conn_of = {}     # rtsp session name -> its command connection (named after the first session on it)
+    members = {}     # connection -> session names created on it
     for idx, (op, (res, groups, notes)) in enumerate(zip(ops, steps)):
         f = op.split(".")
         o = f[0]
         where = "event %d (%s): " % (idx + 1, op)
+        on_conn = None
+        if o in ("ap2", "ds2"):
+            # a further ANNOUNCE / DESCRIBE on the connection of session f[2]: same clauses as a first one for
+            # the new session f[3]; the event is an event of that whole connection
+            on_conn = conn_of.get("c" + f[2])
+            o = o[:2]
+            f = [o, f[1], f[3]] + f[4:]
         for n in notes:
             words.setdefault(n[1], []).append(n[0])
         # (a) at most one accepted input per stream at every instant
@@ -304,6 +340,15 @@ def oracle(c, out):
                 accepted[subject] = ok
                 if not ok:
                     gone.add(subject)
+                if o in ("ap", "ds"):
+                    cid = on_conn if on_conn is not None else subject
+                    conn_of[subject] = cid
+                    members.setdefault(cid, []).append(subject)
+                    if res == "r":
+                        # the command was refused and the connection ended: whatever session it carried has departed
+                        for m in members[cid]:
+                            if accepted.get(m):
+                                gone.add(m)
                 before = prev.get(subj_stream)
                 # (b) an input that arrives while another is accepted is refused
                 if o in INPUT_OPS and before and occupants(before) and ok:
@@ -315,6 +360,15 @@ def oracle(c, out):
             subj_stream = stream_of.get(subject)
             if res == "-":
                 gone.add(subject)
+                # the end of an RTSP command connection is the departure of every session created on it
+                for m in members.get(conn_of.get(subject), []):
+                    if accepted.get(m):
+                        gone.add(m)
+        elif o == "pl":
+            if res == "r":
+                for m in members.get(conn_of.get("c" + f[1]), []):
+                    if accepted.get(m):
+                        gone.add(m)
         elif o == "kick":
             subject = f[2]
             subj_stream = "s" + f[1]
@@ -346,7 +400,7 @@ def oracle(c, out):
             for s, before in prev.items():
                 after = groups.get(s)
                 occ_b = occupants(before)
-                if not occ_b or subject in occ_b:
+                if not occ_b or subject in occ_b or set(members.get(conn_of.get(subject), [])) & set(occ_b):
                     continue
                 if after is None or after["slots"] != before["slots"] or after["pipe"] != before["pipe"] \
                         or after["spub"] != before["spub"] or after["spull"] != before["spull"]:
